@@ -87,6 +87,7 @@ func (r *faultReader) Read(p []byte) (int, error) {
 
 type ctHandle struct {
 	data cache.EntryData
+	meta *cache.EntryMetadata[int] // the entry's metadata as handed out (what a response is later built from)
 	ver  int
 	size int
 	pos  int
@@ -184,6 +185,10 @@ func (s *ctState) doRead(h, n int) string {
 	if hd.pos+got > hd.size {
 		status = "BEYOND-LENGTH"
 	}
+	if hd.meta != nil && (hd.meta.Object != hd.ver || int(hd.meta.Size) != hd.size) {
+		// the metadata a response would be built from now describes another version than the body handle
+		status = fmt.Sprintf("BADMETA(meta=v%d:%d,body=v%d:%d)", hd.meta.Object, hd.meta.Size, hd.ver, hd.size)
+	}
 	hd.pos += got
 	return fmt.Sprintf("%d:%s", got, status)
 }
@@ -273,7 +278,7 @@ func (s *ctState) doGet(k int) string {
 	}
 	h := s.nextH
 	s.nextH++
-	s.handles[h] = &ctHandle{data: e.Data, ver: e.Metadata.Object, size: int(e.Metadata.Size)}
+	s.handles[h] = &ctHandle{data: e.Data, meta: e.Metadata, ver: e.Metadata.Object, size: int(e.Metadata.Size)}
 	st := 0
 	if e.Stale {
 		st = 1
@@ -305,7 +310,7 @@ func (s *ctState) doMid(mid string) {
 			if e, err := s.c.Get(s.keys[k]); err == nil {
 				h := s.nextH
 				s.nextH++
-				s.handles[h] = &ctHandle{data: e.Data, ver: e.Metadata.Object, size: int(e.Metadata.Size)}
+				s.handles[h] = &ctHandle{data: e.Data, meta: e.Metadata, ver: e.Metadata.Object, size: int(e.Metadata.Size)}
 			}
 		}
 	}
